@@ -22,7 +22,7 @@ from .. import instrs as I
 from ..model import AnalysisError, Unknown, dotted, src
 from . import c03
 
-TECHNIQUE = "AST template extraction of printers vs operand order / parser symbol table agreement; abstract interpretation of small functions over an enumerated finite domain by the checker's own AST interpreter (static analysis)"
+TECHNIQUE = "every instruction printed by its own __str__ and parsed by the repository's parser, operand printers and the operand parser - executed by the checker's own AST interpreter on enumerated instructions and texts; mnemonic table agreement (static analysis; abstract execution)"
 ENGINES = ["model", "instrs", "circuit"]
 EXPLANATION = (
     "For every instruction shape: the f-string of _pretty_print is decomposed into (mnemonic, operand references, separators) and "
